@@ -45,10 +45,11 @@ META = {
              'curve. distinct = digest(function, points, reduction / knees, tx, ty, extremes); non-trivial = the '
              'documented rule inserts at least one point with a non-zero index increment (m <= b-a), i.e. an index '
              'that is not just the left end of its segment'),
-    # about 1/3 of a normal quick run on the repaired tree (12.0k evaluations per function, ~14k non-trivial)
-    'require': {EVEN: 2000, KNEES: 2000, 'range': 4000, 'nontrivial': 3000},
-    'scale': {'quick': 1, 'thorough': 12},
-    'curve_cases': {'quick': 1700, 'thorough': 34000},
+    # about 1/3 of a normal quick run on the repaired tree (6.4k model comparisons per function, 12.9k range checks,
+    # ~5.2k distinct non-trivial); with D9 present the markers variant still gets its extremes=False half (3.2k)
+    'require': {EVEN: 2000, KNEES: 2000, 'range': 4000, 'nontrivial': 1700},
+    'scale': {'quick': 1, 'thorough': 80},
+    'curve_cases': {'quick': 1700, 'thorough': 150000},
     'assumptions': ['mapped knees are reduced[knees] (exact index mapping is C07)',
                     'the running-minimum filter keeps ties (height <= lowest kept so far), as filter_worst_knees '
                     'documents for C13',
